@@ -310,8 +310,9 @@ class VQESolver:
 
         # Additional computation for deflation (optional)
         for circ in self.deflation_circuits:
-            f_dict, _ = self.backend.simulate(circ + circuit.inverse())
-            energy += self.deflation_coeff * f_dict.get("0"*self.ansatz.circuit.width, 0)
+            overlap_circuit = circ + circuit.inverse()
+            f_dict, _ = self.backend.simulate(overlap_circuit)
+            energy += self.deflation_coeff * f_dict.get("0"*overlap_circuit.width, 0)
 
         if self.verbose:
             print(f"\tEnergy = {energy:.7f} ")
